@@ -1,6 +1,6 @@
 import struct
 """Shared pieces of the packet-level checks (C01 C02 C03 C04 C14): corpus of valid packets, mutators, TCP option correspondence."""
-import json, os, struct
+import json, os, re, struct
 import common as C
 import pktgen as G
 
@@ -250,3 +250,115 @@ def ip_packet(rng, wild=True):
                       tot if rng.random() < 0.8 else rng.choice([0, tot + 7, 20, 65535]), rng.randrange(65536), rng.choice([0, 0, 0x2000, 0x4000, 5]),
                       rng.randrange(256), proto, 0, rng.randrange(1 << 32), rng.randrange(1 << 32))
     return hdr + bytes(region) + payload
+
+
+# ---- type-length-value option codecs (Model/TLV.v) ----
+BEACON_HDR = bytes([0x80, 0]) + bytes(2) + b'\xff' * 6 + bytes([2, 0, 0, 0, 0, 1]) * 2 + bytes(2) + bytes(8) + struct.pack('<HH', 100, 0x0411)
+TLV_FMTS = [
+    # (model id, class, prefix(region) -> bytes, prefix length, script lines to prepare an API-built object, code octets, length octets, unit8)
+    (0, 'DHCP', lambda r: bytes(236) + bytes([99, 130, 83, 99]), 240, [], 1, 1, False),
+    (1, 'DHCPv6', lambda r: bytes([1, 1, 2, 3]), 4, ['set 0 msg_type 1'], 2, 2, False),
+    (2, 'Dot11Beacon', lambda r: BEACON_HDR, 36, [], 1, 1, False),
+    (3, 'ICMPv6', lambda r: bytes([134, 0, 0, 0, 64, 0, 0, 30, 0, 0, 0, 0, 0, 0, 0, 0]), 16, ['set 0 type 134'], 1, 1, True),
+    (4, 'PPPoE', lambda r: bytes([0x11, 9, 0, 0]) + struct.pack('>H', len(r) & 0xffff), 6, ['set 0 code 9'], 2, 2, False),
+]
+
+
+def tlv_region(rng, cw, lw, unit8, valid):
+    """a region of options (own encoder, written from the RFC layouts), plus the list it encodes"""
+    out, opts = b'', []
+    for _ in range(rng.randrange(0, 6)):
+        code = rng.randrange(1, 255) if cw == 1 else rng.choice([rng.randrange(1, 300), rng.randrange(1 << 16)])
+        if unit8:
+            ln = 8 * rng.randrange(1, 5) - 2
+        else:
+            ln = rng.choice([0, 1, 2, 3, 4, 7, 8, 17, 40] + ([255, 254] if lw == 1 else [256, 300]))
+        data = bytes(rng.randrange(256) for _ in range(ln))
+        cb = bytes([code]) if cw == 1 else struct.pack('>H', code)
+        lb = (bytes([(ln + 2) // 8]) if unit8 else bytes([ln])) if lw == 1 else struct.pack('>H', ln)
+        out += cb + lb + data
+        opts.append((code, data))
+    if not valid and out:
+        k = rng.random()
+        if k < 0.4:
+            out = out[:rng.randrange(len(out))]
+        elif k < 0.7:
+            j = rng.randrange(len(out)); out = out[:j] + bytes([rng.choice([0, 1, 2, 255, out[j] ^ 0x80])]) + out[j + 1:]
+        else:
+            out += bytes(rng.randrange(256) for _ in range(rng.randrange(1, 4)))
+    return out
+
+
+def tlv_correspondence(ctx, rng, n, runner_ok=True):
+    """Model.TLV vs the parsing constructors and write_serialization of DHCP, DHCPv6, Dot11Beacon, ICMPv6 (router advertisement) and
+    PPPoE: (1) same acceptance and same option list for a region of octets, (2) the bytes written for the accepted options and
+    (3) for options added through the API equal the model's encoding"""
+    cases, hs, ms = [], [], []
+    for i in range(n):
+        fid, cls, pre, plen, prep, cw, lw, unit8 = TLV_FMTS[i % len(TLV_FMTS)]
+        if i % 3 == 2:
+            # API-built: options added one by one, then serialized
+            opts = []
+            for _ in range(rng.randrange(0, 6)):
+                code = rng.randrange(1, 255) if cw == 1 else rng.choice([rng.randrange(1, 300), rng.randrange(1 << 16)])
+                ln = (8 * rng.randrange(1, 5) - 2) if (unit8 and rng.random() < 0.8) else rng.choice([0, 1, 2, 5, 6, 14, 40, 200])
+                opts.append((code, bytes(rng.randrange(256) for _ in range(ln))))
+            hs.append(('v%d' % i, ['new ' + cls] + prep + ['aopt 0 %d x%s' % (c, d.hex()) for c, d in opts] + ['ser']))
+            ms.append(('v%d' % i, ['enc %d [%s]' % (fid, ' '.join('[%d x%s]' % (c, d.hex()) for c, d in opts))]))
+            cases.append(('api', fid, cls, plen, opts))
+        else:
+            region = tlv_region(rng, cw, lw, unit8, valid=(rng.random() < 0.5))
+            hs.append(('v%d' % i, ['parse %s x%s' % (cls, (pre(region) + region).hex()), 'ser']))
+            ms.append(('v%d' % i, ['dec %d x%s' % (fid, region.hex())]))
+            cases.append(('wire', fid, cls, plen, region))
+    h = C.run_harness('h_pkt', hs)
+    m = C.run_model('tlv', ms) if runner_ok else {}
+    ctx.cov['evaluations'] += n
+    optre = re.compile(r'\((\d+),(\d+),x([0-9a-f]*)\)')
+    second, bad = [], 0
+
+    def report(i, what, lm, lh):
+        nonlocal bad
+        bad += 1
+        if bad <= 2:
+            ctx.violation('correspondence Model.TLV <-> %s option codec broken: %s' % (cases[i][2], what[:200]),
+                          '=== replay\n%s\n--- model script (runner tlv)\n%s\n--- model %s\n--- C++ %s\n' % ('\n'.join(hs[i][1]), '\n'.join(ms[i][1]), lm, '\n'.join(x[:400] for x in lh)), has_input=False)
+    for i, (kind, fid, cls, plen, arg) in enumerate(cases):
+        sid = 'v%d' % i
+        lh = [l for l in h.get(sid, []) if not l.startswith('!~')]
+        crash = [l for l in lh if l.startswith('!!')]
+        if crash:
+            ctx.violation('%s option codec: %s' % (cls, crash[0]), '=== replay\n%s\n' % '\n'.join(hs[i][1]))
+            bad += 1
+            continue
+        if not runner_ok:
+            continue
+        lm = (m.get(sid) or ['?'])[0]
+        if kind == 'api':
+            sline = [l for l in lh if l.startswith('S ')]
+            if not sline:
+                continue            # an option the API refused / a size the layer cannot serialize: judged by C02/C04 themselves
+            y = bytes.fromhex(sline[0].split()[2][1:])
+            if 'x' + y[plen:].hex() != lm:
+                report(i, 'options added through the API are written as %s, the model writes %s' % (y[plen:].hex()[:80], lm[:80]), lm, lh)
+            continue
+        if lh and lh[0].startswith('E '):
+            got = '-' + lh[0].split()[1]
+        elif lh and lh[0].startswith('P '):
+            mm = re.search(r' (?:options|tags)=\{([^}]*)\}', lh[0].split(' | ')[0])
+            got = '0 [' + ' '.join('[%s x%s]' % (a, c) for a, b, c in optre.findall(mm.group(1) if mm else '')) + ']'
+        else:
+            got = ' / '.join(lh)
+        if got != lm:
+            report(i, 'region %s: model "%s" vs C++ "%s"' % (arg.hex()[:60], lm[:100], got[:100]), lm, lh)
+            continue
+        if lm.startswith('0 ') and len(lh) > 1 and lh[1].startswith('S '):
+            second.append((i, lm[2:], bytes.fromhex(lh[1].split()[2][1:])[plen:]))
+    if runner_ok and second:
+        m2 = C.run_model('tlv', [('w%d' % i, ['enc %d %s' % (cases[i][1], toks)]) for i, toks, _ in second])
+        for i, toks, y in second:
+            lm = (m2.get('w%d' % i) or ['?'])[0]
+            if lm != 'x' + y.hex():
+                report(i, 'accepted options are written back as %s, the model writes %s' % (y.hex()[:80], lm[:80]), lm, h.get('v%d' % i, []))
+    ctx.cov['traces_validated_against_impl'] = ctx.cov.get('traces_validated_against_impl', 0) + (n if runner_ok else 0)
+    return bad
